@@ -82,6 +82,10 @@ Case gen_C19(uint64_t seed, long run, const GenCfg &g, const char *inflight) {
             Op o = opt("gsisx", slot); o.fact = DOFACT; gen_ilu_options(r, o); draw_mem(o, A);
             if (r.chance(0.15)) { FaultSpec f; f.k = r.range(1, 9); f.persist = r.chance(0.5); o.faults.push_back(f); }
             ops.push_back(o);
+            // incomplete LU re-using ordering, row permutation and storage (a quarter of the ILU items; derived, no extra draw)
+            if (((o.rhs_seed >> 16) & 3) == 0 && o.rowperm == NOROWPERM) { Op q2 = o; q2.fact = SamePattern_SameRowPerm; q2.faults.clear(); q2.rhs_seed = o.rhs_seed * 0x9E3779B97F4A7C15ULL + 1;
+                if ((o.rhs_seed >> 18) & 1) { Rng rv(q2.rhs_seed); Mat T = A; gen_values(rv, T, kValueModes[rv.below(4)], cplx); q2.re = T.re; q2.im = T.im; q2.vchange = "unrelated"; }
+                ops.push_back(q2); }
             if (r.chance(0.4)) { Op q = o; q.fact = FACTORED; q.faults.clear(); q.rhs_seed = r.next(); q.nrhs = r.range(0, 3); q.trans = r.chance(0.5) ? NOTRANS : TRANS; ops.push_back(q); }
         } else if (u < 0.66) {
             bool ilu = r.chance(0.3);
